@@ -11,6 +11,10 @@ CLAIMS = {
         text="StreamResultRouter.status is proved, for every rule table, every keyword payload and every route code string (z3 string theory), to deliver exactly one status event to exactly the sink the statement names, with the payload unchanged except for the consumed leading segment; raising exactly when there is no matching rule and no fallback.",
         note="Sinks are abstract Stream objects (one ghost event per call, no raise); str.split('/')[0] is modelled as the prefix up to the first '/'; VC generator and solvers trusted.",
     ),
+    "C11": dict(
+        text="status/startTestRun/stopTestRun of CopyStreamResult, StreamTagger, TimestampingStreamResult, StreamFailFast and StreamToQueue are proved, for every target list, payload and tag set (set, frozenset or None), to forward exactly one identical call to each target in order (fold `deliver`), changing only the owned field, and to modify no object that existed before the call (frame obligations cover the caller's argument objects).",
+        note="Targets are abstract Stream/queue/callback objects (one ghost event per call, no raise); list(map(methodcaller(..), targets)) is given the built-in meaning 'one event per element in order'; fields other than test_id/test_status are passed by keyword (precondition len(args) <= 2); datetime.now is an assumed library contract (returns a value that is not None).",
+    ),
 }
 
 NOT_APPLICABLE = {p: NOT_BUILT for p in ["C%02d" % i for i in range(1, 21)]}
